@@ -3,7 +3,7 @@
 # Like trymutant.sh, but runs the check from the frozen copy of /verif made by `tools/snap.sh`
 # (so /verif can be edited while a long matrix of mutant runs is in progress).
 P="$1"; ID="$2"; TIER="${3:-quick}"
-SNAP=/tmp/verif-snap
+SNAP=${SNAP:-/tmp/verif-snap}
 export GOFLAGS=-mod=mod GOPROXY=off GOSUMDB=off GOTOOLCHAIN=local
 WT=/tmp/mut-$$-$(date +%s%N)
 git -C /repo worktree add -q --detach "$WT" HEAD || exit 2
